@@ -18,10 +18,6 @@ theorem isInputKind_eq (k : DefKind) : Spec.isInputKind k = isInputKind k := by 
 theorem isOutputKind_eq (k : DefKind) : Spec.isOutputKind k = isOutputKind k := by cases k <;> rfl
 theorem kindLocation_eq (k : DefKind) : Spec.kindLocation k = k.render := by cases k <;> rfl
 
-/-- the final query root and type map -/
-def finalRoots (sd : SchemaDoc) (st : LState) (r1 : Roots) : Roots :=
-  if sd.schema.isEmpty then inferRoots st.types r1 else r1
-
 theorem mkSchema_types (sd : SchemaDoc) (st : LState) (r1 : Roots) (d1 : List Directive) :
     (mkSchema sd st r1 d1).types =
       match (finalRoots sd st r1).query with
@@ -320,14 +316,15 @@ structure Facts (sd : SchemaDoc) (s : Schema) (st : LState) (r1 : Roots) (d1 : L
   dirDefOK : ∀ p ∈ st.directives, validateArgs st p.2.args (some p.2.name) = .pass
   roots : RootsOK st.types (finalRoots sd st r1)
   schemaDirs : SchemaDirsOK st d1
+  rootKinds : checkRootKinds st (finalRoots sd st r1) = .pass
 
 theorem loaded_facts {sd : SchemaDoc} {s : Schema} (h : load sd = .ok s) : ∃ st r1 d1, Facts sd s st r1 d1 := by
-  obtain ⟨st, r0, d0, r1, d1, hb, _, h0, h1, ht, hd, hs⟩ := load_ok_inv h
+  obtain ⟨st, r0, d0, r1, d1, hb, _, h0, h1, ht, hd, hs, hk⟩ := load_ok_inv' h
   obtain ⟨hti, hdi, hrel⟩ := buildState_inv hb
   have hr0 := applySchemaDefs_ok hti (r := noRoots) (acc := [])
     ⟨by simp [noRoots], by simp [noRoots], by simp [noRoots]⟩ (by simp [SchemaDirsOK]) h0
   have hr1 := applySchemaDefs_ok hti hr0.1 hr0.2 h1
-  refine ⟨st, r1, d1, hs, hb, hti, hdi, hrel, ?_, ?_, ?_, hr1.2⟩
+  refine ⟨st, r1, d1, hs, hb, hti, hdi, hrel, ?_, ?_, ?_, hr1.2, hk⟩
   · intro p hp
     exact validateTypeDefinitions_pass ht p.1 p.2 (lookup_of_mem_nodup hti.1 hp)
   · intro p hp
